@@ -1060,8 +1060,10 @@ def has_neginf_base(d):
 
 
 def has_pow_of_reciprocal(d):
-    """(x**-1)**q kept unevaluated (Mul::power_num builds it; pow() would return x**-q)"""
-    return any(isinstance(b, list) and b[:1] == ["Pow"] and b[2] == ["Integer", "-1"] and e != ["Integer", "1"]
+    """powers that Mul::power_num stores without passing them through pow(): (x**-1)**q (pow() returns x**-q) and
+    E**<double> (pow() evaluates it to a double)"""
+    return any((isinstance(b, list) and b[:1] == ["Pow"] and b[2] == ["Integer", "-1"] and e != ["Integer", "1"])
+               or (b == ["Constant", "E"] and e[0] in ("RealDouble", "ComplexDouble"))
                for b, e in power_pairs(d))
 
 
